@@ -1,5 +1,5 @@
 ---- MODULE MCFraming ----
 EXTENDS Framing
-ShapesQ == { <<0>>, <<1>>, <<2>>, <<1, 1>>, <<0, 2>>, <<1, 0, 1>> }
+ShapesQ == { <<0>>, <<1>>, <<2>>, <<1, 1>>, <<0, 2>>, <<1, 0, 1>>, <<1, 0, 0, 1>>, <<0, 1, 0, 0, 0, 1>> }   \* segment tables of 8, 16, 24 and 32 bytes
 ShapesT == ShapesQ \cup { <<2, 1, 1, 1>>, <<3>>, <<0, 0>> }
 ====
